@@ -99,6 +99,8 @@ pub struct Ev {
 #[derive(Default)]
 pub struct Shared {
     pub events: Vec<Ev>,
+    /// (driver's thread number, stamp before, stamp after) of every `drop(stream)` a driver executed
+    pub drops: Vec<(usize, u64, u64)>,
     pub producers_active: usize,
 }
 
@@ -428,7 +430,10 @@ pub fn driver_thread(mut stream: Box<dyn StreamDyn>, shared: Arc<Mutex<Shared>>,
         let (hid, h) = held.remove(0);
         release_one(&shared, thread_no, own, hid, h);
     }
+    let drop_inv = ctx::stamp();
     drop(stream);
+    let drop_ret = ctx::stamp();
+    shared.lock().unwrap().drops.push((thread_no, drop_inv, drop_ret));
     harness::mark_done(driver);
 }
 
@@ -446,7 +451,7 @@ pub fn uni_body(p: &UniParams, flush_and_end: bool) -> UniRunData {
 pub fn uni_body_ex(p: &UniParams, flush_and_end: bool, own: bool) -> UniRunData {
     harness::reset();
     let ch: ChanArc = Arc::new(chan::make::<Tracked>(p.kind, p.buffer, p.max_streams, "unused"));
-    let shared = Arc::new(Mutex::new(Shared { events: vec![], producers_active: p.producers.len() + p.reservers.len() }));
+    let shared = Arc::new(Mutex::new(Shared { events: vec![], drops: vec![], producers_active: p.producers.len() + p.reservers.len() }));
     // events already pending when the sends start
     for i in 0..p.prefill {
         let id = prefill_id(i);
